@@ -149,7 +149,7 @@ def cases(draw):
         root = roots_of(fam, th)[0]
     elif fam == 'exp':
         k = draw(gen.logfloat(-2, 1, signed=True))
-        root = draw(st.floats(-20.0, 20.0)) / abs(k) / max(1.0, abs(k)) if abs(k) > 1 else draw(st.floats(-20, 20))
+        root = draw(gen.floats(-20.0, 20.0)) / abs(k) / max(1.0, abs(k)) if abs(k) > 1 else draw(gen.floats(-20, 20))
         c = math.exp(k * root)
         th = [k, c, scale, 0.0]
         root = roots_of(fam, th)[0]
@@ -161,7 +161,7 @@ def cases(draw):
     elif fam == 'tanh':
         k = draw(gen.logfloat(-3, 3))
         r = center
-        t = draw(st.floats(-0.9, 0.9))
+        t = draw(gen.floats(-0.9, 0.9))
         th = [k, r, t, scale]
         root = roots_of(fam, th)[0]
     elif fam == 'poly3':
@@ -180,7 +180,7 @@ def cases(draw):
     kind = draw(st.sampled_from(['around', 'around', 'around', 'nosign', 'endroot_lo', 'endroot_hi']))
     if fam == 'endroot' and kind == 'around':
         kind = draw(st.sampled_from(['endroot_lo', 'endroot_hi']))
-    frac = draw(st.floats(0.001, 0.999))
+    frac = draw(gen.floats(0.001, 0.999))
     if kind == 'around':
         lo, hi = root - frac * width, root + (1 - frac) * width
     elif kind == 'nosign':
@@ -205,7 +205,7 @@ def cases(draw):
     bracket = [hi, lo] if flip else [lo, hi]
     gk = draw(st.sampled_from(['inside', 'lo', 'hi', 'below', 'above', 'root']))
     w = hi - lo
-    x0 = {'inside': lo + draw(st.floats(0, 1)) * w, 'lo': lo, 'hi': hi, 'below': lo - w, 'above': hi + 10 * w,
+    x0 = {'inside': lo + draw(gen.floats(0, 1)) * w, 'lo': lo, 'hi': hi, 'below': lo - w, 'above': hi + 10 * w,
           'root': root}[gk]
     big = max(abs(lo), abs(hi), 1e-300)
     ulp = big * EPS
